@@ -250,3 +250,110 @@ def _ranges(s):
         out.append("0x%02x" % s[i] if i == j else "0x%02x-0x%02x" % (s[i], s[j]))
         i = j + 1
     return ",".join(out)
+
+
+class SearchReplace:
+    pass
+
+
+def find_search_replace(fn, F=None):
+    """search-and-replace loops over a byte buffer, written with the library's search functions:
+
+        for (p = strchr(s, C); p != NULL; p = strchr(p, C)) *p = R;            (NUL-terminated string)
+        p = s; while ((p = memchr(p, C, end - p)) != NULL) *p++ = R;           (end = s + len)
+
+    Recognised: one header phi for the cursor (or the search result); the loop is left exactly when the search returns NULL; the only store
+    in the loop writes a constant R != C (and, for strchr, R != 0) at the position found; the next search starts at the position found or
+    one past it; for memchr the length is `end - cursor` with end = start + len.  Then: every iteration removes one occurrence of C from a
+    finite buffer (termination), and at the exit no byte equal to C remains in [start, start + len) / in the string (post-condition).
+    Attributes: kind, loop, start (pointer operand the first search starts at), length (operand, memchr only), byte C, repl R."""
+    F = F or Facts(fn)
+    M = Matcher(fn)
+    out = []
+    for lp in fn.loops():
+        body = lp["body"]
+        calls = [i for b in body for i in fn.blocks[b].insts if i.op == "call" and fn.mod.callee_cname(i) in ("strchr", "memchr")]
+        pre = []
+        hdr = fn.blocks[lp["header"]]
+        phis = [i for i in hdr.insts if i.op == "phi" and i.ty.endswith("*")]
+        if len(phis) != 1:
+            continue
+        ph = phis[0]
+        ins = [v for v, b in ph.incoming if b not in body]
+        backs = [v for v, b in ph.incoming if b in body]
+        if len(ins) != 1 or not backs:
+            continue
+        stores = [i for b in body for i in fn.blocks[b].insts if i.op == "store"]
+        others = [i for b in body for i in fn.blocks[b].insts if i.op == "call" and fn.mod.callee_cname(i) not in ("strchr", "memchr") and
+                  not (i.callee or "").startswith("llvm.dbg")]
+        if len(stores) != 1 or others or not is_const(stores[0].ops[0]) or stores[0].size != 1:
+            continue
+        R = const_val(stores[0].ops[0]) & 0xFF
+        sr = SearchReplace()
+        sr.fn, sr.loop, sr.store = fn, lp, stores[0]
+        # form 1: the phi IS the search result (search before the loop and on the back edge)
+        d_in = fn.defn(M.strip(ins[0], ("bitcast",)))
+        form1 = d_in is not None and not d_in.is_param and d_in.op == "call" and fn.mod.callee_cname(d_in) == "strchr" and len(calls) == 1 and \
+            all(M.strip(v, ("bitcast",)) == ("v", calls[0].id) for v in backs)
+        if form1:
+            c_in, c_bk = d_in, calls[0]
+            if not (is_const(c_in.ops[1]) and is_const(c_bk.ops[1]) and const_val(c_in.ops[1]) == const_val(c_bk.ops[1])):
+                continue
+            C = const_val(c_in.ops[1]) & 0xFF
+            at = M.strip(stores[0].ops[1], ("bitcast",))
+            nxt = M.strip(c_bk.ops[0], ("bitcast",))
+            ok = at == ("v", ph.id) and (nxt == ("v", ph.id) or M.match(("gep", ("inst", ph.id), [1]), c_bk.ops[0], {}) is not None)
+            # left exactly when the result is NULL: every exit edge carries `phi == NULL`, the back edge / body entry `phi != NULL`
+            exits_ok = all(M.find_fact(("eq", ("inst", ph.id), 0), F.edge_facts(b_, s_))[0] is not None for (b_, s_) in lp["exits"])
+            guarded = M.find_fact(("ne", ("inst", ph.id), 0), F.at_inst(stores[0]))[0] is not None
+            if ok and exits_ok and guarded and R != C and R != 0 and C != 0:
+                sr.kind, sr.start, sr.length, sr.byte, sr.repl = "strchr", c_in.ops[0], None, C, R
+                out.append(sr)
+            continue
+        # form 2: the phi is the cursor; one search per iteration, from the cursor
+        if len(calls) != 1:
+            continue
+        c = calls[0]
+        if M.strip(c.ops[0], ("bitcast",)) != ("v", ph.id) or not is_const(c.ops[1]):
+            continue
+        C = const_val(c.ops[1]) & 0xFF
+        at = M.strip(stores[0].ops[1], ("bitcast",))
+        if at != ("v", c.id):
+            continue
+        nxt_ok = all(M.strip(v, ("bitcast",)) == ("v", c.id) or M.match(("gep", ("inst", c.id), [1]), v, {}) is not None for v in backs)
+        exits_ok = all(M.find_fact(("eq", ("inst", c.id), 0), F.edge_facts(b_, s_))[0] is not None for (b_, s_) in lp["exits"])
+        guarded = M.find_fact(("ne", ("inst", c.id), 0), F.at_inst(stores[0]))[0] is not None
+        if not (nxt_ok and exits_ok and guarded and R != C):
+            continue
+        kind = fn.mod.callee_cname(c)
+        length = None
+        if kind == "memchr":
+            # length = end - cursor, end = start + len  (ptrtoint difference)
+            e = M.match(("bin", "sub", ("cast", "ptrtoint", ("bind", "end")), ("cast", "ptrtoint", ("inst", ph.id))), c.ops[2], {})
+            if e is None:
+                # or: len - (cursor - start)
+                e2 = M.match(("bin", "sub", ("bind", "len"), ("bin", "sub", ("cast", "ptrtoint", ("inst", ph.id)), ("cast", "ptrtoint", ("bind", "base")))), c.ops[2], {})
+                def same_ptr(a, b):
+                    a, b = M.strip(a, ("bitcast",)), M.strip(b, ("bitcast",))
+                    if a == b or M.equiv(a, b):
+                        return True
+                    da, db = fn.defn(a), fn.defn(b)
+                    # two loads of one pointer field (the buffer's address re-read inside the loop; the loop's only store writes a byte of the buffer)
+                    return da is not None and db is not None and not da.is_param and not db.is_param and da.op == "load" and db.op == "load" and \
+                        M.strip(da.ops[0], ("bitcast",)) == M.strip(db.ops[0], ("bitcast",)) and da.ty == db.ty
+                if e2 is not None and same_ptr(e2["base"], ins[0]):
+                    sr.kind, sr.start, sr.length, sr.byte, sr.repl = kind, ins[0], e2["len"], C, R
+                    out.append(sr)
+                continue
+            eg = fn.defn(M.strip(e["end"], ("bitcast",)))
+            if eg is None or eg.is_param or eg.op != "getelementptr" or M.strip(eg.ops[0], ("bitcast",)) != M.strip(ins[0], ("bitcast",)):
+                continue
+            idx = [st_["idx"] for st_ in eg.steps if "idx" in st_]
+            if len(idx) != 1:
+                continue
+            length = idx[0]
+        elif R == 0 or C == 0:
+            continue
+        sr.kind, sr.start, sr.length, sr.byte, sr.repl = kind, ins[0], length, C, R
+        out.append(sr)
+    return out
